@@ -245,6 +245,24 @@ fn main() {
     for i in r { println(i); }
 }
 `},
+	// equality of objects and any-objects walks their fields; whatever it answers (or however it fails) for fields that
+	// hold functions, nested containers or values of different kinds must not depend on the order of that walk
+	"equality-over-many-fields": {"main": `fn pick(n: int) -> int { n }
+fn main() {
+    let a = new { f: println, x: 1, y: 2, z: "s", w: [1], v: ?1, u: pick };
+    let b = new { f: println, x: 2, y: 3, z: "t", w: [2], v: ?2, u: pick };
+    println(a == b, a != b, a == a);
+    let c = new { ? }; c.set("f", debug); c.set("k", 1); c.set("m", 2); c.set("n", [1]); c.set("o", "s"); c.set("p", pick);
+    let d = new { ? }; d.set("f", debug); d.set("k", 2); d.set("m", 3); d.set("n", "list"); d.set("o", 1); d.set("p", pick);
+    println(c == d, d != c, c == c);
+    println([println] == [println], ?debug == ?debug, [a] == [b], ?c == ?d);
+    let e = new { k1: new { f: fmt, a: 1 }, k2: new { f: fmt, a: 2 }, k3: [new { g: print, b: 1 }] };
+    let h = new { k1: new { f: fmt, a: 2 }, k2: new { f: fmt, a: 3 }, k3: [new { g: print, b: 2 }] };
+    println(e == h, e.k1 == h.k1, e.k3 == h.k3);
+    try { println(c.to_json()); } catch err { println("json", err.message); }
+    println(a, c);
+}
+`},
 	// function literals in several modules, printed: what a function value displays must not depend on the order
 	// in which the compiler happens to visit the modules
 	"lambda-display": {"main": `import { fa, ga } from a;
@@ -370,9 +388,9 @@ func TestTableFixed(t *testing.T) {
 // when the program notices the cancellation must not depend on goroutine timing.
 var cancelProgs = map[string]string{
 	"print-loop": "fn main() { let i = 0; while i < 4000 { i += 1; println(\"line\", i); } println(\"done\"); }\n",
-	"calls": "fn f(x: int) -> int { if x % 3 == 0 { println(\"f\", x); } x + 1 }\nfn main() { let i = 0; while i < 6000 { i = f(i); } println(\"done\", i); }\n",
-	"try-loop": "fn main() { let i = 0; loop { i += 1; try { if i % 2 == 0 { throw(\"t\"); } println(\"odd\", i); } catch e { println(\"even\", i); } if i > 5000 { break; } } }\n",
-	"for-lists": "fn main() { let l = [1, 2, 3, 4, 5, 6, 7, 8]; for a in l { for b in l { for c in l { println(a, b, c); } } } }\n",
+	"calls":      "fn f(x: int) -> int { if x % 3 == 0 { println(\"f\", x); } x + 1 }\nfn main() { let i = 0; while i < 6000 { i = f(i); } println(\"done\", i); }\n",
+	"try-loop":   "fn main() { let i = 0; loop { i += 1; try { if i % 2 == 0 { throw(\"t\"); } println(\"odd\", i); } catch e { println(\"even\", i); } if i > 5000 { break; } } }\n",
+	"for-lists":  "fn main() { let l = [1, 2, 3, 4, 5, 6, 7, 8]; for a in l { for b in l { for c in l { println(a, b, c); } } } }\n",
 }
 
 type CancelCase struct {
